@@ -303,6 +303,27 @@ def _a3(ctx, rep):
         for st in t.node.body:
             if isinstance(st, ast.If) and not st.orelse and st.body and isinstance(st.body[-1], ast.Raise) and "sufficient()" in unparse(st.test):
                 guards.append(unparse(subst(st.test, b)))
+            # table-driven form: for (.., owner, method_name) in [literal tuples]: if getattr(owner, method_name)() == False: raise
+            if isinstance(st, ast.For) and isinstance(st.target, ast.Tuple) and all(isinstance(x, ast.Name) for x in st.target.elts):
+                from ..astutil import literal_seq
+                seq = literal_seq(t, st.iter)
+                rows = [r_ for r_ in seq.elts if isinstance(r_, ast.Tuple) and len(r_.elts) == len(st.target.elts)] if seq is not None else []
+                tests = [x for x in st.body if isinstance(x, ast.If) and not x.orelse and x.body and isinstance(x.body[-1], ast.Raise)]
+                if rows and len(rows) == len(seq.elts) and len(tests) == 1 and len(st.body) == 1:
+                    for r_ in rows:
+                        env_ = dict(b)
+                        for nm_, v_ in zip(st.target.elts, r_.elts):
+                            env_[nm_.id] = subst(v_, b)
+                        tt = subst(tests[0].test, env_)
+
+                        class G(ast.NodeTransformer):
+                            def visit_Call(self, n_):
+                                self.generic_visit(n_)
+                                if isinstance(n_.func, ast.Name) and n_.func.id == "getattr" and len(n_.args) == 2 and isinstance(n_.args[1], ast.Constant) \
+                                        and isinstance(n_.args[1].value, str):
+                                    return ast.Attribute(value=n_.args[0], attr=n_.args[1].value, ctx=ast.Load())
+                                return n_
+                        guards.append(unparse(ast.fix_missing_locations(G().visit(tt))))
     want = ["loss.is_option_sufficient() == False", "algo.is_loss_sufficient() == False", "algo.is_option_sufficient() == False",
             "algo.is_loss_and_option_sufficient() == False"]
     norm = [g.replace("not ", "").replace(" == False", "").replace(" is False", "") for g in guards]
@@ -311,10 +332,17 @@ def _a3(ctx, rep):
     a = opt[0].args
     ok = len(a) >= 3 and [unparse(x) for x in a[:3]] == ["loss", "loss_option", "algo_option"]
     rep.check(ok, "A3", f, opt[0], "optimize(loss, loss_option, algo_option)", "optimize is called with %s" % [unparse(x) for x in a[:3]], node=opt[0])
-    app = [n for n in ast.walk(lp) if isinstance(n, ast.Call) and unparse(n.func) == "estimated_var_sequence.append"]
+    # the sequence handed to the result object (its first argument), whatever it is called, receives <optimize result>.value
+    resc = [n for n in own_nodes(f.node) if isinstance(n, ast.Call) and unparse(n.func).endswith("EstimationResult") and n.args and isinstance(n.args[0], ast.Name)]
+    seqn = resc[0].args[0].id if len(resc) == 1 else "estimated_var_sequence"
+    app = [n for n in ast.walk(lp) if isinstance(n, ast.Call) and unparse(n.func) == seqn + ".append"]
     tgt = [unparse(t) for s in ast.walk(lp) if isinstance(s, ast.Assign) and s.value is opt[0] for t in s.targets]
-    ok = len(app) == 1 and tgt and unparse(app[0].args[0]) == tgt[0] + ".value"
-    rep.check(ok, "A3", f, app[0] if app else "append", "the estimate is the optimiser's value", "the appended estimate is not algo.optimize(...).value", node=app[0] if app else lp)
+    if not app:
+        rep.undecided("A3", f, "append", "no append to the sequence handed to the result object (%s)" % seqn)
+    else:
+        got = unparse(app[0].args[0]) if app[0].args else None
+        ok = len(app) == 1 and ((tgt and got == tgt[0] + ".value") or got == unparse(opt[0]) + ".value")
+        rep.check(ok, "A3", f, app[0], "the estimate is the optimiser's value", "the appended estimate is %s, not algo.optimize(...).value" % got, node=app[0])
 
 
 def _a4(ctx, rep):
